@@ -185,7 +185,11 @@ func getC16Tree(seed uint64) (*c16Tree, error) {
 func runC16(t *vs.Tape, cfg map[string]string) (res vs.Result) {
 	c := vs.Counters{}
 	res.Counters = c
-	seed := uint64(t.Intn(12, "corpus"))
+	nCorpus := 12
+	if cfg["corpus"] != "" {
+		fmt.Sscan(cfg["corpus"], &nCorpus)
+	}
+	seed := uint64(t.Intn(nCorpus, "corpus"))
 	tr, err := getC16Tree(seed)
 	if err != nil {
 		res.Infra = "corpus: " + err.Error()
